@@ -234,6 +234,76 @@ def exception_case(ctx, seed):
         ctx.case(('exception', seed, kind, tuple(calls)), nontrivial=True)
 
 
+def concurrent_reads(ctx):
+    """Fresh copies are also promised to readers on different threads: two threads read recorded values (with shared sub-objects)
+    at the same time. Explored with the deterministic scheduler; the preemption points include the lines of the serializer
+    (jsonpickle pickler / unpickler), because that is where a copy spends its time."""
+    from vlib import sched as S
+    import jsonpickle.pickler
+    import jsonpickle.unpickler
+    import playback.utils.pickle_copy as pc
+    import playback.recordings.memory.memory_recording as mr
+    from playback.recordings.memory.memory_recording import MemoryRecording
+    from vlib.values import Obj
+    tg = [pc.__file__, mr.__file__, jsonpickle.pickler.__file__, jsonpickle.unpickler.__file__]
+    part = Obj(name='order-part')
+    recs = []
+    for i in range(2):
+        shared = [i, 'shared-%d' % i]
+        r = MemoryRecording('Cat/%d' % i)
+        r.set_data('k', {'value': [shared, {'again': shared}, Obj(name='item-%d' % i), shared]})
+        r.set_data('j', {'value': (i, [Obj(name='x-%d' % i)])})
+        recs.append(r)
+    models = [{k: fresh(r.recording_data[k]) for k in ('k', 'j')} for r in recs]
+    holder = {}
+
+    def make(sched):
+        out = {}
+        holder['out'] = out
+
+        def reader(i):
+            def fn():
+                for k in ('k', 'j', 'k'):
+                    try:
+                        out.setdefault(i, []).append((k, recs[i].get_data(k)))
+                    except Exception as ex:
+                        out.setdefault(i, []).append((k, ex))
+            return fn
+
+        def main():
+            ths = [sched.Thread(target=reader(i), name='reader%d' % i) for i in range(2)]
+            for t in ths:
+                t.start()
+            for t in ths:
+                t.join()
+        return main
+
+    def on_run(rec, desc):
+        ctx.case(rec.trace, nontrivial=len(rec.points) > 0)
+        ctx.count('concurrent_read_schedules')
+        w = {'concurrent_reads': True, 'schedule': desc if isinstance(desc, tuple) else list(desc)}
+        if rec.aborted or rec.error is not None:
+            if rec.aborted and 'budget' in rec.aborted:
+                ctx.count('schedules_over_step_budget')
+                return
+            ctx.violation('concurrent reads: %s' % (rec.aborted or repr(rec.error))[:100], w)
+            return
+        seen = []
+        for i, items in holder['out'].items():
+            for k, v in items:
+                if isinstance(v, Exception):
+                    ctx.violation('get_data raised %s while another thread was reading too' % type(v).__name__, dict(w, reader=i, key=k))
+                    return
+                if not teq(v, models[i][k]):
+                    ctx.violation('a value read while another thread was reading too differs from what is recorded', dict(w, reader=i, key=k, got=repr(v)[:200]))
+                    return
+                if any(shares_mutable(v, o) for o in seen) or shares_mutable(v, recs[i].recording_data[k]):
+                    ctx.violation('values read concurrently share a mutable object', dict(w, reader=i, key=k))
+                    return
+                seen.append(v)
+    S.explore_random(make, tg, ctx.budget(120, 6000), ctx.rng, on_run, step_budget=200000)
+
+
 def copy_case(ctx, seed):
     from playback.tape_recorder import TapeRecorder
     rng = random.Random(seed)
@@ -293,6 +363,7 @@ def run(ctx):
         copy_case(ctx, base + i)
     for i in range(ctx.budget(60, 3000)):
         exception_case(ctx, base + i)
+    concurrent_reads(ctx)
     if not ctx.quick and ctx.shard == 0:
         from vlib.repo_tests import run_under_monitors
         res, tail = run_under_monitors()
